@@ -34,7 +34,11 @@ def _spec(draw, tier):
     via = draw(st.sampled_from(["arg", "arg", "annot", "annot_sub", "subclass_access"]))
     nvec = draw(st.integers(6, 14))
     vec = st.tuples(st.integers(0, (1 << 70) - 1), st.booleans(), st.booleans(), st.integers(0, 1 << 30)).map(list)
-    return {"tree": tree, "acc": acc, "via": via, "vectors": draw(st.lists(vec, min_size=nvec, max_size=nvec))}
+    return {"tree": tree, "acc": acc, "via": via, "vectors": draw(st.lists(vec, min_size=nvec, max_size=nvec)),
+            # equal sub-descriptions are the same Python object; the whole description was already used
+            # for another register before; action classes are trivial user subclasses
+            "share": draw(st.booleans()), "reuse": draw(st.sampled_from([0, 0, 0, 1, 2])),
+            "subclass": draw(st.sampled_from([False, False, False, True]))}
 
 
 def strategy(tier):
@@ -49,7 +53,13 @@ def _depth(t):
 
 
 def _build(spec):
-    fields = gens.tree_to_fields(spec["tree"])
+    fields = gens.tree_to_fields(spec["tree"], share=spec.get("share", False), subclass=spec.get("subclass", False))
+    for _ in range(spec.get("reuse", 0)):
+        _build_from(fields, spec)       # the same description objects describe an earlier register too
+    return _build_from(fields, spec)
+
+
+def _build_from(fields, spec):
     via = spec["via"]
     if via == "annot" and "d" in spec["tree"]:
         cls = type("AnnotReg", (csr.Register,), {"__annotations__": dict(fields)})
